@@ -137,6 +137,11 @@ func putUvarint(buf []byte, x uint64) int {
 // decoder that trusted such a count would not panic (recoverable) but exhaust
 // the address space (fatal), and the whole run would be lost instead of the
 // one case being reported.
+// the declared counts of the inflation sweep, and how many decodes share one allocation measurement
+var inflateVals = []uint64{1000000, 1 << 62}
+
+const inflateChunk = 8
+
 var bigVals = []uint64{257, 300, 1000, 70000, 1000000, 1 << 62, ^uint64(0)}
 
 func genOps(r *rand.Rand, n int) []mutOp {
@@ -268,6 +273,7 @@ func run(in input) vh.Result {
 		mode    int
 		truncOK []uint64
 		allocTr uint64
+		allocIn uint64
 	)
 	if in.Mode != "raw" {
 		genTier = in.Tier
@@ -341,6 +347,44 @@ func run(in input) vh.Result {
 			}
 		}
 	}
+	// count-inflation sweep: at every position of the encoding (sampled above 1 KiB) a large
+	// uvarint is written over one byte — wherever a declared count or length sits, the
+	// decoder now sees a huge one.  A decoder that allocates from it before checking either
+	// panics (makeslice: recovered by vh.Main, reported) or shows up in the allocation.
+	if mode == 0 && encOK {
+		var pos []int
+		if len(enc) <= 1024 {
+			for i := range enc {
+				pos = append(pos, i)
+			}
+		} else {
+			for i := 0; i < 512; i++ {
+				pos = append(pos, i)
+			}
+			rr := rand.New(rand.NewPCG(in.Seed, 77))
+			for i := 0; i < 256; i++ {
+				pos = append(pos, rr.IntN(len(enc)))
+			}
+		}
+		var buf [10]byte
+		for _, val := range inflateVals {
+			k := putUvarint(buf[:], val)
+			for a := 0; a < len(pos); a += inflateChunk {
+				chunk := pos[a:min(len(pos), a+inflateChunk)]
+				total := measure(func() {
+					for _, i := range chunk {
+						d := make([]byte, 0, len(enc)+10)
+						d = append(append(append(d, enc[:i]...), buf[:k]...), enc[i+1:]...)
+						r2, _ := c.dec(v, d)
+						sink = r2
+					}
+				})
+				if avg := total / uint64(len(chunk)); avg > allocIn {
+					allocIn = avg
+				}
+			}
+		}
+	}
 	outcome := "err"
 	if resOK {
 		outcome = "ok"
@@ -355,11 +399,11 @@ func run(in input) vh.Result {
 	// a decoded value identical to the generated one is not printed a second time
 	same := mode == 0 && encOK && resOK && reflect.DeepEqual(v, res)
 	coq := vh.App("C27Case", vh.N(uint64(mode)), bigHex(data), vh.B(encOK),
-		c.payload(v, hasV, data, res, resOK, same), vh.B(same), vh.NList(truncOK), vh.N(alloc), vh.N(allocTr))
+		c.payload(v, hasV, data, res, resOK, same), vh.B(same), vh.NList(truncOK), vh.N(alloc), vh.N(allocTr), vh.N(allocIn))
 	return vh.Result{
 		Coq: coq,
 		Obs: map[string]any{"mode": mode, "len": len(data), "enc_ok": encOK, "dec_ok": resOK,
-			"trunc_accepted": truncOK, "alloc": alloc, "alloc_trunc_max": allocTr},
+			"trunc_accepted": truncOK, "alloc": alloc, "alloc_trunc_max": allocTr, "alloc_inflate_avg_max": allocIn},
 		Class:   class,
 		Trivial: false,
 	}
